@@ -303,6 +303,60 @@ func buildValues(c *Ctx, g *gen.G) []struct {
 	return out
 }
 
+// c06Unions: the union types have no setters: client code fills them in as struct literals. Whatever alternative
+// such a value holds is what its encoding must parse to - a value that holds a schema encodes as that schema
+// (whatever its boolean says), one that holds none as its boolean / list / null.
+func c06Unions(c *Ctx, g *gen.G) {
+	for i := 0; i < c.N(60, 1000); i++ {
+		inner := spec.StringProperty().WithDescription(g.Str()).WithMaxLength(int64(1 + c.Intn(9)))
+		innerJSON, _ := json.Marshal(inner)
+		other := spec.Int64Property()
+		otherJSON, _ := json.Marshal(other)
+		names := []string{g.Name(), g.Name()}
+		namesJSON, _ := json.Marshal(names)
+		type uv struct {
+			how  string
+			v    interface{}
+			want string
+		}
+		cases := []uv{
+			{"SchemaOrBool{Schema}", spec.SchemaOrBool{Schema: inner}, string(innerJSON)},
+			{"SchemaOrBool{Allows,Schema}", spec.SchemaOrBool{Allows: true, Schema: inner}, string(innerJSON)},
+			{"SchemaOrBool{Allows}", spec.SchemaOrBool{Allows: true}, "true"},
+			{"SchemaOrBool{}", spec.SchemaOrBool{}, "false"},
+			{"SchemaOrArray{Schema}", spec.SchemaOrArray{Schema: inner}, string(innerJSON)},
+			{"SchemaOrArray{Schemas}", spec.SchemaOrArray{Schemas: []spec.Schema{*inner, *other}}, "[" + string(innerJSON) + "," + string(otherJSON) + "]"},
+			{"SchemaOrStringArray{Schema}", spec.SchemaOrStringArray{Schema: inner}, string(innerJSON)},
+			{"SchemaOrStringArray{Property}", spec.SchemaOrStringArray{Property: names}, string(namesJSON)},
+			{"StringOrArray{1}", spec.StringOrArray{names[0]}, quoteJSON(names[0])},
+			{"StringOrArray{2}", spec.StringOrArray(names), string(namesJSON)},
+		}
+		// the same values at their positions inside a schema built by hand
+		holder := new(spec.Schema).Typed("object", "")
+		holder.AdditionalProperties = &spec.SchemaOrBool{Schema: inner}
+		holder.AdditionalItems = &spec.SchemaOrBool{Allows: c.Coin(0.5), Schema: other}
+		holder.Items = &spec.SchemaOrArray{Schemas: []spec.Schema{*inner}}
+		holder.Dependencies = spec.Dependencies{"a": spec.SchemaOrStringArray{Schema: other}, "b": spec.SchemaOrStringArray{Property: names}}
+		cases = append(cases, uv{"Schema{unions}", holder, `{"type":"object","items":[` + string(innerJSON) + `],"additionalProperties":` + string(innerJSON) +
+			`,"additionalItems":` + string(otherJSON) + `,"dependencies":{"a":` + string(otherJSON) + `,"b":` + string(namesJSON) + `}}`})
+		for _, u := range cases {
+			got, err := json.Marshal(u.v)
+			c.Count("union:"+u.how+u.want, true)
+			c.Hit("union:" + u.how)
+			cs := map[string]interface{}{"how": "struct literal " + u.how, "holds": json.RawMessage(u.want)}
+			if err != nil {
+				c.Fail(Failure{Kind: "oracle", Sig: "C06:encode-error", What: "encoding a hand-built union value fails: " + err.Error(), Case: cs})
+				continue
+			}
+			gv, e1 := wire.Parse(got)
+			wv, e2 := wire.Parse([]byte(u.want))
+			if e1 != nil || e2 != nil || gv.Canon() != wv.Canon() {
+				c.Fail(Failure{Kind: "oracle", Sig: "C06:parses-to-something-else", What: fmt.Sprintf("a %s encodes as %s, which is not what the value holds (%s)", u.how, clip(string(got)), clip(u.want)), Case: cs, Impl: clip(string(got))})
+			}
+		}
+	}
+}
+
 func runC06(c *Ctx) {
 	v := loadVocab(c)
 	c.Res.Rule = "model values decoded from generated documents (nasty member names; x-order ties, strings, non-integers on property schemas) and values built through the fluent builder API; each encoded 8 times (fresh map iteration orders), bytes compared, output re-parsed with an order- and duplicate-preserving parser, property order checked against (x-order, name), re-decoded and compared with the model value; non-trivial = value with at least one map-typed member; distinct by encoding"
@@ -337,6 +391,7 @@ func runC06(c *Ctx) {
 			c.Sample(map[string]interface{}{"kind": kind, "doc": json.RawMessage(doc.Text())})
 		}
 	}
+	c06Unions(c, g)
 	for i := 0; i < c.N(300, 5000); i++ {
 		for _, b := range buildValues(c, g) {
 			enc, _ := json.Marshal(b.v)
